@@ -2,6 +2,17 @@
 import json, subprocess
 
 CLAIMED = {
+    "C14": dict(
+        text="The real BatchReactor / BatchCluster / validators / SynCRN run in one process under a simulated environment: "
+             "id() is a simulated address space that re-issues an address only after its owner is provably dead, cyclic GC runs "
+             "only when the scheduler says so, joblib.Parallel and ProcessPoolExecutor are simulated pools (batches pickled once, "
+             "per-worker address spaces, seeded batch sizes / completion order / worker recycling / worker crash). Every entry's "
+             "output is compared with SynReactor on that entry alone. Seeded sampling of schedules x histories x configurations; "
+             "a clean batch is evidence, not proof.",
+        ref="3.1",
+        note="Trusted: the pool model (loky pickles each batch once; workers share no memory; n_jobs==1 is in-process), the "
+             "CPython refcount rule used to recognise pure temporaries, SynReactor on pristine objects as reference. Stubs: "
+             "Parallel, ProcessPoolExecutor, id, GC trigger, random facade; all SynKit/RDKit/networkx code is real."),
     "C15": dict(
         text="Seeded search over operation histories of the real CRNHyperGraph against a dict reference model: all four "
              "redundant indices, species set, labels and dense+sparse incidence matrix of every live network are compared "
